@@ -250,8 +250,10 @@ def c06(scen, rec, f):
     if rec["end"] != "quiescent" or not f["kill_shutdown"] or len(rec["final"]["ex"]) != 1:
         return out
     # applies once a kill-shutdown call has returned
+    def kill_before(ui, oi):
+        return any(o[0] == "shutdown" and o[2] for o in scen["users"][ui][:oi])
     returned = [a for a in rec["api"] if a[2] == "shutdown" and a[3] == "ok"
-                and scen["users"][a[0]][a[1]][2] and scen["users"][a[0]][a[1]][1]]
+                and scen["users"][a[0]][a[1]][1] and (scen["users"][a[0]][a[1]][2] or kill_before(a[0], a[1]))]
     if not returned:
         return out
     for k, r in rec["results"].items():
@@ -364,7 +366,13 @@ def starved(scen, rec, f, props):
     if "C06" in (props or []) and f["kill_shutdown"] and not f["crashes"]:
         for ui, u in enumerate(scen["users"]):
             for oi, op in enumerate(u):
-                if op[0] == "shutdown" and op[1] and op[2]:
+                # a waited shutdown that asks for the workers to be killed - or that follows, in the same thread, a
+                # completed shutdown(kill_workers=True) (a kill request is not undone by a later plain shutdown: the
+                # `with executor:` exit after executor.shutdown(wait=False, kill_workers=True))
+                earlier_kill = any(o[0] == "shutdown" and o[2] and
+                                   any(a[0] == ui and a[1] == oj and a[3] == "ok" for a in rec["api"])
+                                   for oj, o in enumerate(u[:oi]))
+                if op[0] == "shutdown" and op[1] and (op[2] or earlier_kill):
                     done = [a for a in rec["api"] if a[0] == ui and a[1] == oi]
                     started = [a for a in rec["api"] if a[0] == ui and a[1] == oi - 1] or oi == 0
                     if started and not done and rec["blocked"].get(f"U{ui}", "").startswith(("tjoin", "acquire")):
